@@ -72,7 +72,9 @@ def optimize_prec_assignment(model: MPS,
                     continue
 
                 if isinstance(layer.w_mps_quantizer, MPSPerChannelQtz):
-                    w_theta_alpha_array = layer.w_mps_quantizer.theta_alpha.mean(dim=1)
+                    # same normalization used in the layers' get_cost: fractions of not-pruned channels
+                    n_alive_channels = layer.out_features_eff + 1e-10
+                    w_theta_alpha_array = layer.w_mps_quantizer.theta_alpha.sum(dim=1) / n_alive_channels
                 else:
                     raise ValueError("Unsupported quantizer type")
 
@@ -93,8 +95,8 @@ def optimize_prec_assignment(model: MPS,
                     for j in range(i + 1, len(sorted_precisions)):
                         w_theta_alpha_array_tmp = [copy.deepcopy(w_theta_alpha_array)[i] for i in sorted_indexes]
                         while w_theta_alpha_array_tmp[i] > 0:
-                            w_theta_alpha_array_tmp[i] -= (1. / layer.w_mps_quantizer.theta_alpha.shape[1])
-                            w_theta_alpha_array_tmp[j] += (1. / layer.w_mps_quantizer.theta_alpha.shape[1])
+                            w_theta_alpha_array_tmp[i] -= (1. / n_alive_channels)
+                            w_theta_alpha_array_tmp[j] += (1. / n_alive_channels)
                             cost_tmp = _compute_cost(model, layer, w_theta_alpha_array_tmp, cost_fn_map, lname, node)
                             if cost_tmp < best_cost:
                                 best_cost = cost_tmp
@@ -118,8 +120,8 @@ def optimize_prec_assignment(model: MPS,
                         continue
                     for j in range(i + 1, len(sorted_precisions)):
                         while w_theta_alpha_array_tmp[i] > 0:
-                            w_theta_alpha_array_tmp[i] -= (1. / layer.w_mps_quantizer.theta_alpha.shape[1])
-                            w_theta_alpha_array_tmp[j] += (1. / layer.w_mps_quantizer.theta_alpha.shape[1])
+                            w_theta_alpha_array_tmp[i] -= (1. / n_alive_channels)
+                            w_theta_alpha_array_tmp[j] += (1. / n_alive_channels)
                             cost_tmp = _compute_cost(model, layer, w_theta_alpha_array_tmp, cost_fn_map, lname, node)
                             if cost_tmp < best_cost:
                                 best_cost = cost_tmp
@@ -137,7 +139,7 @@ def optimize_prec_assignment(model: MPS,
 
                 # Sort the best configuration according to the original order of the precisions
                 best_theta_alpha_array = torch.tensor([best_cost_w_theta_alpha_array[i] for i in sorted_indexes])
-                best_theta_alpha_array = torch.mul(best_theta_alpha_array, layer.w_mps_quantizer.theta_alpha.shape[1])
+                best_theta_alpha_array = torch.mul(best_theta_alpha_array, n_alive_channels)
 
                 # Update the layer with the best configuration.
                 # Modify only the alpha parameter of each layer, and not the theta_alpha, to avoid
